@@ -159,6 +159,14 @@ theorem winv_step {w : World} (hw : WInv w) (hv : Valid w.cfg.I) (e : WEv) :
         rcases hid with h | h
         · have := hw.valid id h; omega
         · omega
+  | constructDetached k =>
+    simp only [World.step, World.constructDetached]
+    split
+    · exact ⟨hw, rfl⟩
+    · refine ⟨⟨hw.inv, hw.nodup, ?_⟩, rfl⟩
+      intro id hid
+      simp only [List.length_append, List.length_singleton]
+      have := hw.valid id hid; omega
   | createOrGet k =>
     simp only [World.step, World.createOrGet]
     split
